@@ -123,3 +123,17 @@ Proof. intros A NA. exact (@solve_options_spec A NA). Qed.
 Theorem C05_no_overrides_means_the_defaults : forall (A : Type) (NA : Num A),
   solve_options (@Build_sopts A None None None) = default_opts.
 Proof. intros A NA. exact (@solve_options_no_override A NA). Qed.
+
+(* ---- solve() regenerated from device_kit/solve.py on every run (Gen/Solve.v, translator/solve_tx.py: the defaults dictionary and its
+        update, the all-fixed shortcut with its per-constraint test and tolerances, the default start, the args dictionary with its lambdas
+        and the `if prox:` update, the equality-count guard, the call, `if not o.success: raise`, the reshapes) IS solve_model, the wrapper the
+        theorems of part (a) quantify over, for EVERY behaviour of the optimiser.  Any carrier. ---- *)
+From DK.Model Require Import SolveOps.
+From DK.Gen Require Import Solve.
+From DK.Proofs Require Import GenSolve.
+Theorem C05_source_solve : forall (A : Type) (NA : Num A) (minimize : problem A -> optresult A) dv s0 prox,
+  length (dv_bounds dv) = (dv_rows dv * dv_n dv)%nat -> solve_gen minimize dv s0 prox = solve_model minimize dv s0 prox.
+Proof. intros A NA. exact (@gen_solve A NA). Qed.
+Theorem C05_source_solver_options : forall (A : Type) (NA : Num A),
+  solve_defaults_gen (A:=A) = default_opts /\ forall user, solve_options_gen user = solve_options user.
+Proof. intros A NA. exact (@gen_solve_defaults A NA). Qed.
